@@ -1,11 +1,13 @@
 (* C05 - Wire protocols round-trip every message and never lose frame sync.
-   Part 2: proto/jsonproto (the repaired code, /repo commit 77f1e44).
+   Part 2: proto/jsonproto (the repaired code: body escaping /repo 77f1e44, service method
+   written through the same escaping).
    Frame: {4-byte size}{pipe length}{pipe ids}{JSON text through the pipe}; the JSON text is
-   {"seq":N,"mtype":N,"serviceMethod":Q,"status":Q,"meta":Q,"bodyCodec":N,"body":"B"} with
-   Q = strconv.Quote and B = the body escaped as a JSON string. Limits / supported field set
-   (json_ok): int32 sequence number and status code; a service method made of printable ASCII
-   and \b \f \n \r \t (what strconv.Quote writes for other bytes, \x01 \a \v or \U escapes,
-   is cut short by the reader: json_method_unguarded_refuted); metadata = ordered multimap of
+   {"seq":N,"mtype":N,"serviceMethod":"B","status":Q,"meta":Q,"bodyCodec":N,"body":"B"} with
+   Q = strconv.Quote and B = the bytes escaped as a JSON string (escapeBody). Limits / supported
+   field set (json_ok): int32 sequence number and status code; ANY service method bytes
+   (control bytes, 0x7f, bytes >= 0x80, invalid UTF-8: before the repair the method went
+   through strconv.Quote, whose \x00 \a \v escapes are cut short by the reader:
+   C05_json_method_prefix_refuted); metadata = ordered multimap of
    arbitrary byte strings without a pair whose key and value are both empty; any status
    message / cause, any message type, codec id and body bytes; the frame below 2^32 bytes
    and within the size limit. [quote_hi]: strconv.Quote on non-ASCII runs; [gjson_other]:
@@ -69,17 +71,28 @@ Theorem C05_json_body_backslash_only_refuted : forall quote_hi gjson_other,
 Proof. exact json_body_v1_refuted. Qed.
 Print Assumptions C05_json_body_backslash_only_refuted.
 
-(* without the guard on the service method the round trip is false *)
-Theorem C05_json_method_unguarded_refuted : forall quote_hi gjson_other,
-  exists m f size, json_pack quote_hi jesc_byte 1000 [] m = Ok (f, size) /\
+(* the second defect that was repaired: with the service method written by strconv.Quote
+   (the code before), a method with a control byte ("/test" followed by 0x00) does not come
+   back although the message meets every other limit *)
+Theorem C05_json_method_prefix_refuted : forall quote_hi gjson_other,
+  exists m f size, json_ok m = true /\ json_pack_prefix quote_hi jesc_byte 1000 [] m = Ok (f, size) /\
                    json_unpack gjson_other [] 1000 f <> Ok (m, [], size, []).
-Proof. exact json_method_unguarded_refuted. Qed.
-Print Assumptions C05_json_method_unguarded_refuted.
+Proof. exact json_method_prefix_refuted. Qed.
+Print Assumptions C05_json_method_prefix_refuted.
 
-(* non-vacuity: a message with every field non-trivial (backslash, quotes, control and
-   non-ASCII bytes in the body) meets the guard and packs *)
+(* what held for that code: the payload parses back under the additional guard json_safe on
+   the service method *)
+Theorem C05_json_parse_prefix_guarded : forall quote_hi gjson_other m,
+  json_ok_prefix m = true ->
+  json_parse gjson_other (json_members_prefix quote_hi jesc_byte m (m_body m) ++ [ "}"%byte ]) = Ok m.
+Proof. exact json_parse_prefix_ok. Qed.
+Print Assumptions C05_json_parse_prefix_guarded.
+
+(* non-vacuity: a message with every field non-trivial (backslash, quotes, control, 0x7f and
+   non-ASCII / invalid UTF-8 bytes in the service method and in the body) meets the guard and
+   packs *)
 Example C05_json_example :
-  let m := mkMsg (-2147483648) x02 (str "/a/b c")
+  let m := mkMsg (-2147483648) x02 [ "/"%byte; x00; x07; x0b; x1f; x7f; x80; xff; dqt; bsl; " "%byte ]
                  (mkStatus 404 (str "Not ""Found""") (Some [bsl; x00; xff]))
                  [(str "k", [dqt; bsl]); (str "k", []); ([], str "=")] x6a
                  [ "{"%byte; x0a; dqt; bsl; dqt; x00; xff; "}"%byte ] in
